@@ -493,6 +493,55 @@ pub const GROUPS: &[(&str, &[(&str, &[Sel])])] = &[
             ),
         ],
     ),
+    // renet_netcode: the UDP transports (socket = semantic-model type `RustSem.UdpSocket`)
+    (
+        "TrServer",
+        &[
+            (
+                "renet_netcode/src/lib.rs",
+                &[
+                    Sel::Enum("NetcodeTransportError"),
+                    Sel::From("NetcodeTransportError", "NetcodeError"),
+                    Sel::From("NetcodeTransportError", "DisconnectReason"),
+                    Sel::From("NetcodeTransportError", "Error"),
+                ],
+            ),
+            (
+                "renet_netcode/src/server.rs",
+                &[
+                    Sel::Struct("NetcodeServerTransport"),
+                    Sel::Fn("handle_server_result"),
+                    Sel::Method("NetcodeServerTransport", "new"),
+                    Sel::Method("NetcodeServerTransport", "addresses"),
+                    Sel::Method("NetcodeServerTransport", "max_clients"),
+                    Sel::Method("NetcodeServerTransport", "set_max_clients"),
+                    Sel::Method("NetcodeServerTransport", "connected_clients"),
+                    Sel::Method("NetcodeServerTransport", "user_data"),
+                    Sel::Method("NetcodeServerTransport", "client_addr"),
+                    Sel::Method("NetcodeServerTransport", "disconnect_all"),
+                    Sel::Method("NetcodeServerTransport", "time_since_last_received_packet"),
+                    Sel::Method("NetcodeServerTransport", "update"),
+                    Sel::Method("NetcodeServerTransport", "send_packets"),
+                ],
+            ),
+        ],
+    ),
+    (
+        "TrClient",
+        &[(
+            "renet_netcode/src/client.rs",
+            &[
+                Sel::Struct("NetcodeClientTransport"),
+                Sel::Method("NetcodeClientTransport", "new"),
+                Sel::Method("NetcodeClientTransport", "client_id"),
+                Sel::Method("NetcodeClientTransport", "time_since_last_received_packet"),
+                Sel::Method("NetcodeClientTransport", "disconnect"),
+                Sel::Method("NetcodeClientTransport", "disconnect_reason"),
+                Sel::Method("NetcodeClientTransport", "send_packets"),
+                Sel::Method("NetcodeClientTransport", "update"),
+            ],
+        )],
+    ),
 ];
 
 pub fn work_list() -> Vec<WorkItem> {
@@ -528,6 +577,10 @@ pub const WHILE_FUEL: &[(&str, &str, &[&str])] = &[
         "ReceiveChannelReliable::receive_message",
         &["received_messages.len() + 1"],
     ),
+    // `loop { match socket.recv_from(..) { .. } }`: every round consumes one event of the socket's script (`pending()` is
+    // the model-only observer `RustSem.UdpSocket.pending`) or ends the loop
+    ("renet_netcode/src/server.rs", "NetcodeServerTransport::update", &["self.socket.pending() + 1"]),
+    ("renet_netcode/src/client.rs", "NetcodeClientTransport::update", &["self.socket.pending() + 1"]),
 ];
 
 /// `for v in <hash map>.values_mut()` loops that are accepted although the iteration order of a `HashMap` is
